@@ -237,6 +237,8 @@ def _mono_mul(m1, m2):
 
 
 NAN_ATOM = ('nan',)
+PINF_ATOM = ('sym', '+inf')
+NINF_ATOM = ('sym', '-inf')
 NAN = Poly({((NAN_ATOM, 1),): Fr(1)})
 ZERO = Poly({})
 ONE = Poly.const(1)
@@ -417,6 +419,10 @@ class Ctx:
 
     # ---- ranges
     def atom_range(self, a):
+        if a == PINF_ATOM:
+            return (INF, INF)
+        if a == NINF_ATOM:
+            return (-INF, -INF)
         if a in self.ranges:
             r = self.ranges[a]
             # compound atoms can still be narrowed structurally
@@ -537,7 +543,7 @@ class Ctx:
             if lo > -h and hi < h and lo != -INF and hi != INF:
                 tl = Fr(math.tan(float(lo)))
                 th = Fr(math.tan(float(hi)))
-                pad = Fr(1, 10 ** 6)
+                pad = Fr(3, 10 ** 7)
                 return (tl - abs(tl) * pad - Fr(1, 10 ** 12), th + abs(th) * pad + Fr(1, 10 ** 12))
             return (-INF, INF)
         return (-INF, INF)
@@ -566,11 +572,25 @@ class Ctx:
                 s_, k_ = sk
                 if f.k[1] == '==':
                     lo, hi = max(lo, k_), min(hi, k_)
-                elif s_ > 0:
-                    hi = min(hi, k_)
                 else:
-                    lo = max(lo, k_)
+                    # strict facts on integer-valued polynomials: F < 0  =>  F <= -1
+                    step = abs(s_) if (f.k[1] == '<' and self._int_valued(f.k[2])) else 0
+                    if s_ > 0:
+                        hi = min(hi, k_ - step)
+                    else:
+                        lo = max(lo, k_ + step)
         return (lo, hi)
+
+    def _int_valued(self, p):
+        for m, c in p.t.items():
+            if c.denominator != 1:
+                return False
+            for a, pw in m:
+                if pw < 1:
+                    return False
+                if not (a in self.int_atoms or a[0] in ('idiv', 'mod', 'f2i', 'bitand', 'bitor', 'shr', 'shl')):
+                    return False
+        return True
 
     def _rng_rec(self, p, atoms, ranges, depth):
         c = p.const_value()
@@ -590,6 +610,26 @@ class Ctx:
                     r1 = self._rng_rec(p.subst({a: Poly.const(lo)}), atoms, ranges, depth + 1)
                     r2 = self._rng_rec(p.subst({a: Poly.const(hi)}), atoms, ranges, depth + 1)
                     return (min(r1[0], r2[0]), max(r1[1], r2[1]))
+        # univariate quadratic: exact range (end points and vertex)
+        pats = p.atoms()
+        if len(pats) == 1:
+            a = next(iter(pats))
+            alo, ahi = ranges[a]
+            degs = set()
+            for m in p.t:
+                for b_, pw in m:
+                    degs.add(pw)
+            if degs <= {1, 2} and alo not in (INF, -INF) and ahi not in (INF, -INF) and not any(_occurs_in(a, b_) for b_ in pats if b_ != a):
+                c2 = p.t.get(((a, 2),), Fr(0))
+                c1 = p.t.get(((a, 1),), Fr(0))
+                c0 = p.t.get((), Fr(0))
+                f = lambda x: c2 * x * x + c1 * x + c0
+                cands = [f(alo), f(ahi)]
+                if c2 != 0:
+                    xv = -c1 / (2 * c2)
+                    if alo <= xv <= ahi:
+                        cands.append(f(xv))
+                return (min(cands), max(cands))
         # interval arithmetic per monomial
         lo_t, hi_t = Fr(0), Fr(0)
         for m, c in p.t.items():
@@ -950,6 +990,13 @@ def t_div(p, q, ctx):
     c = q.const_value()
     if c is not None and c != 0:
         return p.scale(1 / c)
+    if c == 0:
+        # IEEE: x/0 = +-inf for x != 0, NaN for 0/0
+        pc = p.const_value()
+        if pc is not None:
+            if pc == 0:
+                return NAN
+            return Poly.atom(PINF_ATOM if pc > 0 else NINF_ATOM)
     return p * inv_poly(q)
 
 
@@ -993,6 +1040,15 @@ def t_idiv(p, q, ctx):
         lo, hi = ctx.rng(p)
         if lo >= 0 and hi < qc:
             return ZERO
+    if qc is not None and qc > 0 and qc.denominator == 1 and p.t and all(c.denominator == 1 for c in p.t.values()):
+        # floor(g*a / g*b) = floor(a/b): divide out the common factor so equivalent formulas share one normal form
+        from math import gcd
+        g = int(qc)
+        for c in p.t.values():
+            g = gcd(g, abs(int(c)))
+        if g > 1:
+            p = p.scale(Fr(1, g))
+            q = Poly.const(qc / g)
     r = Poly.atom(('idiv', p, q))
     lo, hi = ctx.rng(r)
     if lo == hi and lo not in (INF, -INF):
